@@ -210,7 +210,6 @@ func setup4(args ...string) (handler.Handler4, error) {
 }
 
 func setupFile(v6 bool, args ...string) (handler.Handler6, handler.Handler4, error) {
-	var err error
 	if len(args) < 1 {
 		return nil, nil, errors.New("need a file name")
 	}
@@ -220,7 +219,8 @@ func setupFile(v6 bool, args ...string) (handler.Handler6, handler.Handler4, err
 	}
 
 	// load initial database from lease file
-	if err = loadFromFile(v6, filename); err != nil {
+	n, err := loadFromFile(v6, filename)
+	if err != nil {
 		return nil, nil, err
 	}
 
@@ -242,23 +242,26 @@ func setupFile(v6 bool, args ...string) (handler.Handler6, handler.Handler4, err
 		// on the file
 		go func() {
 			for range watcher.Events {
-				err := loadFromFile(v6, filename)
+				n, err := loadFromFile(v6, filename)
 				if err != nil {
 					log.Warningf("failed to refresh from %s: %s", filename, err)
 
 					continue
 				}
 
-				log.Infof("updated to %d leases from %s", len(StaticRecords), filename)
+				log.Infof("updated to %d leases from %s", n, filename)
 			}
 		}()
 	}
 
-	log.Infof("loaded %d leases from %s", len(StaticRecords), filename)
+	log.Infof("loaded %d leases from %s", n, filename)
 	return Handler6, Handler4, nil
 }
 
-func loadFromFile(v6 bool, filename string) error {
+// loadFromFile replaces the lease mapping with the content of the file. It
+// returns the number of leases loaded: StaticRecords must not be read without
+// holding recLock, another instance's watcher may be replacing it
+func loadFromFile(v6 bool, filename string) (int, error) {
 	var err error
 	var records map[string]net.IP
 	var protver int
@@ -270,7 +273,7 @@ func loadFromFile(v6 bool, filename string) error {
 		records, err = LoadDHCPv4Records(filename)
 	}
 	if err != nil {
-		return fmt.Errorf("failed to load DHCPv%d records: %w", protver, err)
+		return 0, fmt.Errorf("failed to load DHCPv%d records: %w", protver, err)
 	}
 
 	recLock.Lock()
@@ -278,5 +281,5 @@ func loadFromFile(v6 bool, filename string) error {
 
 	StaticRecords = records
 
-	return nil
+	return len(records), nil
 }
